@@ -88,23 +88,24 @@ def collectBatch (d : Doc) : List Change → List Change → List Change × Exce
     else if queueHasActorSeq batch c then (d.queue, .error (.duplicateSeq c.seq c.actor))
     else collectBatch d cs (batch ++ [c])
 
+/-- "unsatisfied count is zero" of `pop_topo_sorted_ready`: every dep of `x` is in the change graph
+    or among the changes `rel` released so far -/
+def isSat (applied : Doc) (rel : List Change) (x : Change) : Bool :=
+  x.deps.all (fun dep => applied.hasChange dep || rel.any (fun r => r.hash == dep))
+
 /-- Kahn's algorithm of `pop_topo_sorted_ready`, FIFO ready queue, over the pool `q`.
     `done` = hashes released so far (in order), `ready` = FIFO of pool changes whose unsatisfied
     count reached zero.  A change becomes ready when all its deps are in the graph or released. -/
 def kahnLoop (applied : Doc) (pool : List Change) : Nat → List Change → List Change → List Change
   | 0, _, done => done
-  | fuel + 1, ready, done =>
-    match ready with
-    | [] => done
-    | c :: rest =>
-      let done' := done ++ [c]
-      let isSat (x : Change) (rel : List Change) : Bool :=
-        x.deps.all (fun dep => applied.hasChange dep || rel.any (fun r => r.hash == dep))
-      -- dependents of `c` whose last unsatisfied dep was `c`, in pool (index) order
-      let newly := pool.filter (fun x =>
-        x.deps.contains c.hash && isSat x done' && !isSat x done
-          && !(done'.any (fun r => r.hash == x.hash)) && !(rest.any (fun r => r.hash == x.hash)))
-      kahnLoop applied pool fuel (rest ++ newly) done'
+  | _ + 1, [], done => done
+  | fuel + 1, c :: rest, done =>
+    let done' := done ++ [c]
+    -- dependents of `c` whose last unsatisfied dep was `c`, in pool (index) order
+    let newly := pool.filter (fun x =>
+      x.deps.contains c.hash && isSat applied done' x && !isSat applied done x
+        && !(done'.any (fun r => r.hash == x.hash)) && !(rest.any (fun r => r.hash == x.hash)))
+    kahnLoop applied pool fuel (rest ++ newly) done'
 
 /-- `pop_topo_sorted_ready`: (released changes in topological order, remaining queue) -/
 def popTopoSortedReady (d : Doc) : List Change × List Change :=
@@ -126,15 +127,13 @@ def applyBatch (d : Doc) (cs : List Change) : Doc × Except ApplyErr Unit :=
 /-- `missing_deps_from`: DFS from `start` through the deps of queued changes -/
 def missingLoop (d : Doc) : Nat → List Hash → List Hash → List Hash → List Hash
   | 0, _, _, missing => missing
-  | fuel + 1, stack, seen, missing =>
-    match stack with
-    | [] => missing
-    | h :: rest =>
-      if d.hasChange h || seen.contains h then missingLoop d fuel rest seen missing
-      else
-        match d.queue.find? (fun c => c.hash == h) with
-        | some c => missingLoop d fuel (c.deps ++ rest) (h :: seen) missing
-        | none => missingLoop d fuel rest (h :: seen) (h :: missing)
+  | _ + 1, [], _, missing => missing
+  | fuel + 1, h :: rest, seen, missing =>
+    if d.hasChange h || seen.contains h then missingLoop d fuel rest seen missing
+    else
+      match d.queue.find? (fun c => c.hash == h) with
+      | some c => missingLoop d fuel (c.deps ++ rest) (h :: seen) missing
+      | none => missingLoop d fuel rest (h :: seen) (h :: missing)
 
 /-- `get_missing_deps(heads)` -/
 def Doc.missingDeps (d : Doc) (heads : List Hash) : List Hash :=
